@@ -465,6 +465,23 @@ class Provenance:
                     return cs
             if name == "enumerate" and e.args:
                 return ("list", ("tuple", ("n", selem(self.ev(e.args[0])))))
+            if name in ("map", "filter") and len(e.args) >= 2 and not e.keywords and name not in self.env:
+                if name == "filter":                      # a selection of the elements
+                    return ("list", selem(self.ev(e.args[1])))
+                g = e.args[0]                             # map(g, xs, ..): the results of g, whatever the elements were
+                gn = g.id if isinstance(g, ast.Name) and g.id not in self.env else None
+                if gn in self.norm:
+                    return ("list", self.norm[gn])
+                if gn in ("str", "int", "float", "bool", "len", "repr"):
+                    return ("list", "n")
+                if gn is not None and self.call_shape is not None:
+                    cs = self.call_shape(gn)
+                    if cs is not None:
+                        return ("list", cs)
+                if isinstance(g, ast.Lambda) and len(e.args) == 2 and len(g.args.args) == 1 and not (g.args.posonlyargs or g.args.kwonlyargs or g.args.vararg or g.args.kwarg):
+                    self.bind(ast.Name(id=g.args.args[0].arg, ctx=ast.Store()), selem(self.ev(e.args[1])))
+                    return ("list", self.ev(g.body))
+                return ("list", "raw")
             if name == "zip":
                 return ("list", ("tuple", tuple(selem(self.ev(a)) for a in e.args)))
             if name == "dict" and len(e.args) == 1:
@@ -626,7 +643,7 @@ class ModuleFlow:
         if id(fnode) not in self._kinds:
             if self._mk is None:
                 self._mk = K.ModuleKinds(self.m)
-            self._kinds[id(fnode)] = K.Kinds(fnode, None, self._mk.call_kinds, None, self_name="", call_parts=self._mk.call_parts)
+            self._kinds[id(fnode)] = K.Kinds(fnode, None, self._mk.call_kinds, None, self_name="", call_parts=self._mk.call_parts, method_call=self._mk.method_call)
         return self._kinds[id(fnode)]
 
     def ret_shape(self, name):
